@@ -113,7 +113,7 @@ def open_pairs(tier, seed):
         if cfg['asn'] > 65535:
             cfg['asn4'] = True
         pf = rnd.choice(fam_sets)
-        peer = {'asn': rnd.choice([65001, 65000, 4200000002]), 'hold': rnd.choice([0, 3, 30, 180, 65535]), 'families': list(pf), 'asn4': rnd.random() < 0.7, 'refresh': rnd.random() < 0.7, 'enhanced_refresh': rnd.random() < 0.4, 'extended': rnd.random() < 0.5, 'addpath': ({f: rnd.choice([1, 2, 3]) for f in pf} if rnd.random() < 0.5 else {}), 'order': rnd.randint(0, 99), 'duplicate': rnd.random() < 0.2}
+        peer = {'asn': rnd.choice([65001, 65000, 4200000002]), 'hold': rnd.choice([0, 3, 30, 180, 65535]), 'families': list(pf), 'asn4': rnd.random() < 0.7, 'refresh': rnd.random() < 0.7, 'enhanced_refresh': rnd.random() < 0.4, 'extended': rnd.random() < 0.5, 'addpath': ({f: rnd.choice([1, 2, 3, 1, 2, 3, 0, 4, 5, 6, 7, 255]) for f in pf} if rnd.random() < 0.5 else {}), 'order': rnd.randint(0, 99), 'duplicate': rnd.random() < 0.2}
         if peer['asn'] > 65535:
             peer['asn4'] = True
         evals += 1
